@@ -351,7 +351,7 @@ type sim struct {
 // siblings whose names extend a directory's name with a character that sorts below '/'
 // ("a-b", "a.d", "a.txt" next to "a/") separate path-wise from string-wise prefix handling
 var universeDirs = []string{"a", "a/x", "b", "b/y", "c", "a-b", "a.d", "b/y.z"}
-var universeNames = []string{"one.proto", "two.proto", "three.txt", "four", "five.proto", "a.txt", "one.proto.bak", "x.y"}
+var universeNames = []string{"one.proto", "two.proto", "three.txt", "four", "five.proto", "a.txt", "one.proto.bak", "x.y", "sp ace.txt", "two  spaces.proto", "ünï.proto", " lead", "trail "}
 var mapPrefixes = []string{"a", "a/x", "b", "zz"}
 
 func (m *sim) violate(oracle, site, format string, args ...any) {
